@@ -12,7 +12,7 @@ use futures::FutureExt;
 use remoc::chmux::{
     self,
     verif::{encode, ExchangedCfg, MultiplexMsg},
-    Cfg, ChMux, ChMuxError, Client, ConnectError, Listener, Receiver, Request, Sender,
+    Cfg, ChMux, ChMuxError, Client, ConnectError, Listener, PortReq, Receiver, Request, Sender,
 };
 use std::{
     collections::HashMap,
@@ -40,6 +40,8 @@ struct World {
     new_ports: Arc<Mutex<Vec<(Sender, Receiver)>>>,
     seen: usize,
     panicked: bool,
+    peer_version: u8,
+    c09: Option<String>,
 }
 
 impl World {
@@ -105,6 +107,9 @@ impl World {
             used += m.frames;
             let renamed = match &m.msg {
                 MultiplexMsg::OpenPort { client_port, wait, id } => {
+                    if self.peer_version < 3 && id.is_some() {
+                        self.c09 = Some("FAIL: C09 a port id sent in an open request to a version-2 peer".into());
+                    }
                     let c = self.canon(*client_port);
                     let mut v = vec![4, c, *wait as u128];
                     match id {
@@ -117,6 +122,21 @@ impl World {
                 MultiplexMsg::PortOpened { client_port, server_port } => {
                     let c = self.canon(*server_port);
                     vec![5, *client_port as u128, c]
+                }
+                MultiplexMsg::PortData { port, first, last, wait, ports, ids } => {
+                    if self.peer_version < 3 && ids.is_some() {
+                        self.c09 = Some("FAIL: C09 port ids sent inside a port batch to a version-2 peer".into());
+                    }
+                    let cs: Vec<u128> = ports.iter().map(|p| self.canon(*p)).collect();
+                    let mut v = vec![8, *port as u128, *first as u128, *last as u128, *wait as u128, ids.is_some() as u128, cs.len() as u128];
+                    v.extend(cs.iter().copied());
+                    if let Some(ids) = ids {
+                        v.push(ids.len() as u128);
+                        for (j, i) in ids.iter().enumerate() {
+                            v.push(if ports.get(j) == Some(i) { cs[j] } else { *i as u128 });
+                        }
+                    }
+                    v
                 }
                 MultiplexMsg::PortCredits { .. } | MultiplexMsg::Ping => continue,
                 other => msg_to_nums(other),
@@ -215,6 +235,8 @@ pub fn exec(inp: &[u128]) -> (Vec<u128>, String, String) {
             new_ports: Arc::new(Mutex::new(Vec::new())),
             seen,
             panicked: false,
+            peer_version: ver,
+            c09: None,
         };
         w.settle().await;
         let mut out = Vec::new();
@@ -331,6 +353,37 @@ pub fn exec(inp: &[u128]) -> (Vec<u128>, String, String) {
                             l.terminate();
                         }
                     }
+                    (14, [k, n, wait]) => {
+                        sigs.push("sendports");
+                        if let Some(tx) = w.senders.get_mut(&(BASE + *k)) {
+                            let alloc = tx.port_allocator();
+                            let mut ports = Vec::new();
+                            for _ in 0..*n {
+                                if let Some(p) = alloc.try_allocate() {
+                                    ports.push(PortReq::new(p));
+                                }
+                            }
+                            if let Some(Ok(conns)) = tx.connect(ports, *wait != 0).now_or_never() {
+                                for conn in conns {
+                                    let idx = {
+                                        let mut cr = w.connect_results.lock().unwrap();
+                                        cr.push(None);
+                                        cr.len() - 1
+                                    };
+                                    let results = w.connect_results.clone();
+                                    let new_ports = w.new_ports.clone();
+                                    tokio::spawn(async move {
+                                        let r = conn.await;
+                                        let code = resp_code(&r);
+                                        if let Ok(p) = r {
+                                            new_ports.lock().unwrap().push(p);
+                                        }
+                                        results.lock().unwrap()[idx] = Some(code);
+                                    });
+                                }
+                            }
+                        }
+                    }
                     (20, [paylen, nums @ ..]) => {
                         // local-port fields (>= BASE) are translated to the actual numbers
                         if let Some(m) = nums_to_msg(nums).map(|m| w.localise(m)) {
@@ -374,6 +427,9 @@ pub fn exec(inp: &[u128]) -> (Vec<u128>, String, String) {
             out.push(r.unwrap_or(0));
         }
         let mut oracle = "ok".to_string();
+        if let Some(c) = &w.c09 {
+            oracle = c.clone();
+        }
         if w.panicked {
             oracle = "FAIL: C08 the dispatcher panicked".into();
         }
@@ -526,6 +582,15 @@ pub fn gen(r: &mut Rng, i: usize) -> Vec<Vec<u128>> {
                         ports[k].peer_rx_closed = true;
                     }
                     9 => push_op(&mut v, 20, &[0, 9, p.canon, r.range(1, 100) as u128]),
+                    11 if p.tx_alive && !p.peer_rx_closed => {
+                        // a port batch to the peer
+                        let n = r.range(1, 3) as u128;
+                        push_op(&mut v, 14, &[idx, n, r.below(2) as u128]);
+                        for _ in 0..n {
+                            connecting.push(BASE + appeared);
+                            appeared += 1;
+                        }
+                    }
                     10 if !p.peer_tx_finished => {
                         // a port batch from the peer
                         let n = r.range(1, 3);
